@@ -512,6 +512,12 @@ def decompose(expr, truth: bool) -> List[Tuple[ast.AST, bool]]:
                 out.extend(decompose(v, truth))
             return out + [(expr, truth)]
         return [(expr, truth)]
+    if isinstance(expr, ast.Compare) and len(expr.ops) == 1 and isinstance(expr.comparators[0], ast.Constant) \
+            and expr.comparators[0].value in (True, False) and isinstance(expr.comparators[0].value, bool) \
+            and isinstance(expr.ops[0], (ast.Is, ast.Eq, ast.IsNot, ast.NotEq)) and isinstance(expr.left, (ast.Call, ast.Compare, ast.BoolOp)):
+        # `isinstance(x, T) is False`  ==  not isinstance(x, T)
+        same = isinstance(expr.ops[0], (ast.Is, ast.Eq)) == expr.comparators[0].value
+        return decompose(expr.left, truth if same else not truth) + [(expr, truth)]
     if isinstance(expr, ast.Compare) and len(expr.ops) == 1:
         op = expr.ops[0]
         flip = {ast.IsNot: ast.Is, ast.NotIn: ast.In, ast.NotEq: ast.Eq}
